@@ -40,8 +40,11 @@ def correspond(ctx, C):
             if "panic" in run or run.get("nilResult"):
                 site = run.get("where", "")
                 sites[site] = sites.get(site, 0) + 1
+                unres = any(t.startswith(("unresolvedReferences", "invalidRef"))
+                            for x in go.get("runs", []) for t in S.rule_tags(x.get("errors", []) or []))
                 k = next((f for f in known if any(s_ in site for s_ in f.get("site_match", []))
                           and (not f.get("panic_match") or f["panic_match"] in str(run.get("panic", "")))
+                          and (not f.get("needs_unresolved_ref") or unres)
                           and not f.get("crash_only")), None)
                 if k:
                     attributed[k["id"]] = attributed.get(k["id"], 0) + 1
